@@ -120,6 +120,8 @@ func registerVerifExternals(sh *Shared) {
 		}
 		return fmt.Sprint(args[0])
 	})
+	reg(mainPath+".scratchDir", func(fr *frame, args []value) value { return "" })
+	reg(mainPath+".scratchDone", func(fr *frame, args []value) value { return nil })
 	reg(mainPath+".thorough", func(fr *frame, args []value) value { return sh.Thorough })
 	reg(mainPath+".symbolic", func(fr *frame, args []value) value { return true })
 	reg(mainPath+".observe", func(fr *frame, args []value) value {
@@ -167,6 +169,23 @@ func registerVerifExternals(sh *Shared) {
 		call(fr.i, fr, token.NoPos, args[0], nil)
 		return false
 	})
+	// runUntilCrash(f) runs f; crashNow() inside it kills the "process" (no deferred call runs)
+	reg(mainPath+".runUntilCrash", func(fr *frame, args []value) (res value) {
+		depth := fr.i.depth
+		defer func() {
+			if r := recover(); r != nil {
+				if _, ok := r.(crashPanic); ok {
+					fr.i.depth = depth
+					res = true
+					return
+				}
+				panic(r)
+			}
+		}()
+		call(fr.i, fr, token.NoPos, args[0], nil)
+		return false
+	})
+	reg(mainPath+".crashNow", func(fr *frame, args []value) value { panic(crashPanic{}) })
 	reg("runtime.Goexit", func(fr *frame, args []value) value {
 		panic(goexitPanic{})
 	})
@@ -610,6 +629,9 @@ func registerStdStubs(sh *Shared) {
 		return utf8.RuneCountInString(args[0].(string))
 	})
 	reg("strconv.ParseUint", func(fr *frame, args []value) value {
+		if t := fr.i.parseSymKey(args[0].(string)); t != nil {
+			return tuple{sym{t, types.Uint64}, iface{}}
+		}
 		u, err := strconv.ParseUint(args[0].(string), int(asInt64(args[1])), int(asInt64(args[2])))
 		if err != nil {
 			return tuple{u, sh.errorValue(err.Error())}
@@ -1203,6 +1225,28 @@ func callMethodReal(fr *frame, typ, method string, args []value) value {
 }
 
 func symKeyOf(s sym) string { return fmt.Sprintf("‹sym:%s:t%d›", kindName(s.k), s.t.id) }
+
+// parseSymKey inverts the fmt model: "0x‹sym:uint64:t12›" or "‹sym:uint64:t12›" denotes term t12.
+func (i *interpreter) parseSymKey(s string) *Term {
+	s = strings.TrimPrefix(s, "0x")
+	if !strings.HasPrefix(s, "‹sym:") || !strings.HasSuffix(s, "›") {
+		return nil
+	}
+	k := strings.LastIndex(s, ":t")
+	if k < 0 {
+		return nil
+	}
+	var id int
+	if _, err := fmt.Sscanf(s[k+2:], "%d›", &id); err != nil {
+		return nil
+	}
+	if id >= 0 && id < len(i.ex.pool.all) {
+		if t := i.ex.pool.all[id]; t.sort.k == sBV && t.sort.w == 64 {
+			return t
+		}
+	}
+	return nil
+}
 
 // nativeSym prints its key for every fmt verb.
 type nativeSym string
